@@ -1282,6 +1282,10 @@ def find(prop, fo, seed):
     t0 = time.time()
     deadline = t0 + TOTAL_BUDGET_S
     function = (fo or {}).get("function") or ""
+    sp = refimpl_find(prop, fo or {}, seed, deadline)
+    if sp is not None:
+        sp["log"]["seconds"] = round(time.time() - t0, 1)
+        return sp
     fams, variants, plats, rule = plan(function)
     extras = tuple(sorted({f for fam in fams for f in FAMILIES[fam][1]}))
     log = {"function": function, "rule": rule or "generic smoke (function not in the table)", "families": fams,
@@ -1335,6 +1339,8 @@ def find(prop, fo, seed):
 
 def rerun(failing_input):
     sc = failing_input["scenario"]
+    if sc.get("kind") in ("refimpl", "vectors_case"):
+        return refimpl_rerun(failing_input)
     feats = tuple(failing_input.get("features") or ())
     builds = Builds()
     try:
@@ -1355,6 +1361,145 @@ def rerun(failing_input):
                 "scenario": sc, "features": list(feats), "repo": common.REPO}
     finally:
         builds.close()
+
+
+# ==============================================================================================
+# part 5: obligations about reference_impl/ and test_vectors.json (property C15)
+#   The optimized crate is the wrong target for these.  The reference implementation is driven
+#   through lib/vectors_runner (built by eval_backend._build_runner, input pattern i % 251 only).
+# ==============================================================================================
+_RMODE = {"hash": "hash", "keyed_hash": "keyed", "derive_key": "derive"}
+
+
+def _is_refimpl(fo):
+    loc = fo.get("location") or ""
+    return loc.startswith("reference_impl/") or "reference_impl" in (fo.get("function") or "")
+
+
+def _is_vectors(fo):
+    i = fo.get("inputs")
+    return (fo.get("function") == "test_vectors.json" and isinstance(i, dict)
+            and all(k in i for k in ("input_len", "mode", "out_len", "observed", "expected")))
+
+
+def _ref_line(sc):
+    ctx = sc.get("context", "").encode("utf-8").hex() or "-"
+    return "%s %s %s %d %d %d" % (sc["mode"], sc.get("key_hex") or "-", ctx, sc["input_len"], sc["out_len"],
+                                  sc.get("split", 0))
+
+
+def _ref_expected(sc):
+    data = gen_input({"pattern": "inc251", "len": sc["input_len"]})
+    key = bytes.fromhex(sc["key_hex"]) if sc.get("key_hex") else None
+    return b3spec.blake3(data, _RMODE[sc["mode"]], key=key, context=sc.get("context", ""), out_len=sc["out_len"]).hex()
+
+
+def _ref_cases(rng):
+    out = []
+    mi = 0
+    modes = ("hash", "keyed_hash", "derive_key")
+    for n in BOUNDARY:
+        for sp, ol in ((0, 32), (64, 131), (1025, 65), (1, 32), (63, 1), (65, 64), (1024, 200), (3000, 33)):
+            if sp == 1 and n > 2100:
+                continue
+            if sp and sp >= n and sp != 64:
+                continue
+            m = modes[mi % 3]
+            mi += 1
+            sc = {"kind": "refimpl", "mode": m, "input_len": n, "out_len": ol, "split": sp}
+            if m == "keyed_hash":
+                sc["key_hex"] = KEY_TV if mi % 2 else _rand_key(rng)
+            if m == "derive_key":
+                # unusual contexts (empty, non-ASCII, longer than a chunk) only at a few lengths, so that
+                # the first witness of a tree/chunk defect is about the input and not about the context
+                sc["context"] = CONTEXTS[mi % len(CONTEXTS)] if n in (65, 1025, 5121) else CTX_TV
+            out.append(sc)
+    return out
+
+
+def _ref_run(binp, cases, timeout):
+    rc, out, err, _ = common.run([binp], timeout=timeout, mem_gb=4, input="\n".join(_ref_line(c) for c in cases) + "\n")
+    lines = out.split()
+    return lines, rc, err
+
+
+def refimpl_find(prop, fo, seed, deadline):
+    if _is_vectors(fo):
+        # the evaluation unit already names a concrete failing case: that IS the replayable input
+        i = fo["inputs"]
+        sc = {"kind": "vectors_case", "input_len": i["input_len"], "mode": i["mode"], "out_len": i["out_len"],
+              "against": i.get("against", "reference_impl")}
+        return {"found": {"scenario": sc, "features": [], "family": "vectors_case", "observed": i["observed"],
+                          "expected": i["expected"], "panic": None},
+                "log": {"function": fo.get("function"), "rule": "eval:vectors failing case taken as is (no search)",
+                        "families": ["vectors_case"], "scenarios_run": 0, "builds": []}}
+    if not _is_refimpl(fo):
+        return None
+    import eval_backend
+    log = {"function": fo.get("function"), "rule": "reference_impl obligation: lib/vectors_runner vs oracle/b3spec.py",
+           "families": ["refimpl"], "scenarios_run": 0, "builds": [], "seed": seed, "repo": common.REPO}
+    d = common.scratch_dir("replay_ref")
+    try:
+        tb = time.time()
+        binp, _cmd, diag = eval_backend._build_runner(d, common.REPO)
+        log["builds"].append({"features": ["reference_impl"], "ok": bool(binp), "seconds": round(time.time() - tb, 1),
+                              "error": diag})
+        if not binp:
+            return {"found": None, "log": log}
+        cases = _ref_cases(random.Random("%s/refimpl" % seed))
+        pos = 0
+        while pos < len(cases) and time.time() < deadline - 5:
+            chunk = cases[pos:pos + 200]
+            lines, rc, err = _ref_run(binp, chunk, max(10, min(60, deadline - time.time())))
+            for j, sc in enumerate(chunk):
+                if j >= len(lines):
+                    return {"found": {"scenario": sc, "features": [], "family": "refimpl", "expected": _ref_expected(sc),
+                                      "observed": "runner stopped (rc=%s): %s" % (rc, (err or "")[-300:]), "panic": None},
+                            "log": log}
+                log["scenarios_run"] += 1
+                want = _ref_expected(sc)
+                if lines[j] != want:
+                    return {"found": {"scenario": sc, "features": [], "family": "refimpl", "observed": lines[j],
+                                      "expected": want, "panic": "PANIC" if lines[j] == "PANIC" else None}, "log": log}
+            pos += len(chunk)
+        return {"found": None, "log": log}
+    finally:
+        common.rm_rf(d)
+
+
+def refimpl_rerun(fi):
+    import eval_backend
+    sc = fi["scenario"]
+    d = common.scratch_dir("replay_ref")
+    try:
+        if sc["kind"] == "vectors_case":
+            tv = json.loads(common.read(os.path.join(common.REPO, "test_vectors", "test_vectors.json")))
+            case = next((c for c in tv["cases"] if int(c["input_len"]) == sc["input_len"]), None)
+            if case is None:
+                return {"reproduced": False, "error": "no case with input_len=%d in test_vectors.json" % sc["input_len"]}
+            vec = case[sc["mode"]]
+            rs = {"kind": "refimpl", "mode": sc["mode"], "input_len": sc["input_len"], "out_len": len(vec) // 2,
+                  "key_hex": tv["key"].encode().hex(), "context": tv["context_string"], "split": 0}
+            if sc.get("against") == "oracle":
+                other = _ref_expected(rs)
+                return {"reproduced": vec != other, "observed": vec, "expected": other,
+                        "what": "test_vectors.json vs oracle/b3spec.py", "scenario": sc, "repo": common.REPO}
+            binp, _c, diag = eval_backend._build_runner(d, common.REPO)
+            if not binp:
+                return {"reproduced": False, "error": diag}
+            lines, rc, err = _ref_run(binp, [rs], 60)
+            got = lines[0] if lines else "runner gave no answer (rc=%s)" % rc
+            return {"reproduced": got != vec, "observed": got, "expected": vec,
+                    "what": "reference_impl vs test_vectors.json", "scenario": sc, "repo": common.REPO}
+        binp, _c, diag = eval_backend._build_runner(d, common.REPO)
+        if not binp:
+            return {"reproduced": False, "error": diag}
+        lines, rc, err = _ref_run(binp, [sc], 60)
+        got = lines[0] if lines else "runner gave no answer (rc=%s)" % rc
+        want = _ref_expected(sc)
+        return {"reproduced": got != want, "observed": got, "expected": want, "scenario": sc, "repo": common.REPO}
+    finally:
+        common.rm_rf(d)
 
 
 # ----------------------------------------------------------------------------------------------
